@@ -15,24 +15,27 @@
      mode, but the invariant does not say so).
    * [pending_nonspace_split]  table text: the whole-pending-text whitespace test is invariant under splitting.
    * [process_token_text], [append_text_eq]: the equations of the model the above rest on.
-   NOT PROVED (what a full tree-builder half of C03 still needs)
-   * the same split theorem for the other groups of modes: "in body" and the modes that delegate characters to it
-     (needs: reconstruct-the-active-formatting-elements is a no-op when run a second time - after it the last entry
-     is open -, the frameset-ok flag is the OR over the pieces, template contents are fetched twice); the table-text
-     machinery (the pending lists differ by [(a++b)] / [a; b]: the state equivalence has to identify them and the
-     flush - foster-parenting or plain insertion per entry - has to be shown to build the same DOM); the early modes
-     that split off leading white space (SplitWhitespace: the runs of a ++ b are not the runs of a followed by the
-     runs of b when a run spans the cut; dropped white space is dropped in both); NUL characters are separate tokens.
-   * [log_irrelevant]: that the rest of a run cannot see the event log (write-only in the model, but as a property
-     of all its code it needs a pass over every definition: the model reads the state through `get`, so each
-     function needs its own frame lemma).  With it and the per-mode theorems the statement for whole token lists
-     related by [splits] follows by induction; it is stated below as a definition, not as a theorem.
+   * [log_irrelevant_holds]  the rest of a run cannot see the event log: processing a token from two states with the
+     same core and the same DOM gives the same answer and again states with the same core and the same DOM
+     (from TreeFrame.v: one frame lemma per definition of the model); [run_tokens_same_core] for whole runs.
+   CONTINUED IN
+   * TreeSplitBody.v: the split theorem for "in body" and the modes "in caption" / "in template" that delegate
+     character tokens to it (reconstruct-the-active-formatting-elements is a no-op the second time, frameset-ok is
+     the OR over the pieces).
+   * TreeSplitRun.v: whole token lists related by [splits], under the side condition that every cut token is
+     processed in a covered state ([tree_split_run_partial]); the list of what is not covered is in its header.
+   NOT PROVED
+   * the table-text machinery (the pending lists differ by [(a++b)] / [a; b]: the state equivalence has to identify
+     them and the flush - foster-parenting or plain insertion per entry - has to be shown to build the same DOM);
+     the early modes that split off leading white space (SplitWhitespace: the runs of a ++ b are not the runs of a
+     followed by the runs of b when a run spans the cut; dropped white space is dropped in both); foster parenting,
+     template current nodes, foreign content, "in cell".  NUL characters are separate tokens.
    ======================================================================== *)
 From Coq Require Import List NArith Bool Arith Lia String.
 From HV Require Import Dom.DomSpec Dom.DomLemmas SinkSpec.Contract SinkSpec.ContractProofs.
 From HV Require Import Tree.TreeTypes Tree.TreeTables Tree.TreeModelHelpers Tree.TreeModelRules Tree.TreeModel
   Tree.TreeHoare Tree.TreeInvBasic Tree.TreeInvDefs Tree.TreeInvPrims Tree.TreeInvHelpers Tree.TreeInvDispatch
-  Tree.TreeInvRules Tree.TreeInvModes Tree.TreeInvMain Tree.TreeContract Tree.TreeSkeleton Tree.TreeContractRun.
+  Tree.TreeInvRules Tree.TreeInvModes Tree.TreeInvMain Tree.TreeContract Tree.TreeSkeleton Tree.TreeContractRun Tree.TreeFrame.
 Import ListNotations.
 Open Scope string_scope.
 Open Scope list_scope.
@@ -281,17 +284,17 @@ Proof.
 Qed.
 
 (* C03, tree-builder side, "text" mode: one character token or two *)
-Theorem text_mode_split s line line' a b target :
+Theorem text_mode_split_gen s line line' a b target :
   TInv s -> mode s = Text -> Hshape s -> foster_parenting s = false ->
   vlast (open_elems s) = Some target -> named s target "template" = false ->
-  Utf8.scalars (a ++ b) -> a <> [] ->
+  a <> [] ->
   exists s1 sa s2,
     process_token (TChars (a ++ b)) line s = Ok SContinue s1 /\
     process_token (TChars a) line s = Ok SContinue sa /\
     process_token (TChars b) line' sa = Ok SContinue s2 /\
     same_core s1 s2 /\ dom_of s1 = dom_of s2 /\ TInv s1 /\ TInv s2.
 Proof.
-  intros I Em Sh Fp V Nt Sc Na.
+  intros I Em Sh Fp V Nt Na.
   set (s1 := text_token_state s line (a ++ b) target). set (sa := text_token_state s line a target).
   set (s2 := text_token_state sa line' b target).
   destruct (text_token_state_fields s line a target) as (Ma & Fa & Oa & Ia & Na' & Ca). fold sa in Ma, Fa, Oa, Ia, Na', Ca.
@@ -328,6 +331,17 @@ Proof.
     intros n R. exact (sim_bound _ _ (TInv_sim s I) target n R).
 Qed.
 
+Theorem text_mode_split s line line' a b target :
+  TInv s -> mode s = Text -> Hshape s -> foster_parenting s = false ->
+  vlast (open_elems s) = Some target -> named s target "template" = false ->
+  Utf8.scalars (a ++ b) -> a <> [] ->
+  exists s1 sa s2,
+    process_token (TChars (a ++ b)) line s = Ok SContinue s1 /\
+    process_token (TChars a) line s = Ok SContinue sa /\
+    process_token (TChars b) line' sa = Ok SContinue s2 /\
+    same_core s1 s2 /\ dom_of s1 = dom_of s2 /\ TInv s1 /\ TInv s2.
+Proof. intros I Em Sh Fp V Nt _ Na. apply (text_mode_split_gen s line line' a b target); assumption. Qed.
+
 (* ---------- pending table text: the all-whitespace test is over the whole pending text ---------- *)
 Lemma any_not_whitespace_app a b : any_not_whitespace (a ++ b) = any_not_whitespace a || any_not_whitespace b.
 Proof. unfold any_not_whitespace. apply existsb_app. Qed.
@@ -353,7 +367,8 @@ Inductive splits : list (token * N) -> list (token * N) -> Prop :=
 
 (* what the full statement needs besides the per-mode split theorems: processing a token from two states with the
    same core and the same DOM gives again states with the same core and the same DOM, and the same answer.  The event
-   log is write-only in the model, but that is a property of all its code: it is NOT proved. *)
+   log is write-only in the model; as a property of all its code it is proved in TreeFrame.v ([log_irrelevant_holds]
+   below). *)
 Definition log_irrelevant : Prop :=
   forall tk line s s', same_core s s' -> dom_of s = dom_of s' ->
     match process_token tk line s, process_token tk line s' with
@@ -365,3 +380,56 @@ Definition log_irrelevant : Prop :=
 
 (* for statements in files that do not open string_scope *)
 Definition is_template_node (s : st) (h : handle) : bool := named s h "template".
+
+(* ---------- the event log is write-only (TreeFrame.v): [log_irrelevant] holds ---------- *)
+Lemma chron_app e1 e2 : chron (e1 ++ e2) = chron e2 ++ chron e1.
+Proof. unfold chron, TreeModel.ops_of. rewrite rev_app_distr, flat_map_app. reflexivity. Qed.
+
+Lemma dom_of_app_out s t evs : out t = evs ++ out s -> dom_of t = run_from (dom_of s) (chron evs).
+Proof. intro E. unfold dom_of. rewrite E, chron_app, run_from_app. reflexivity. Qed.
+
+(* any piece of the model, from two states with the same core and the same DOM *)
+Theorem frame_same_core_dom {A} (m : M A) : Frame m -> forall s s', same_core s s' -> dom_of s = dom_of s' ->
+  match m s, m s' with
+  | Ok r1 t1, Ok r2 t2 => r1 = r2 /\ same_core t1 t2 /\ dom_of t1 = dom_of t2
+  | Panic n1, Panic n2 => n1 = n2
+  | OutOfFuel, OutOfFuel => True
+  | _, _ => False
+  end.
+Proof.
+  intros F s s' C D. pose proof (Frame_two_states m F s s' C) as H.
+  destruct (m s) as [a t | n |], (m s') as [a' t' | n' |]; try exact H.
+  destruct H as (Ea & Ct & evs & E1 & E2). split; [exact Ea|]. split; [exact Ct|].
+  rewrite (dom_of_app_out s t evs E1), (dom_of_app_out s' t' evs E2), D. reflexivity.
+Qed.
+
+Theorem log_irrelevant_holds : log_irrelevant.
+Proof. intros tk line s s' C D. exact (frame_same_core_dom _ (process_token_frame tk line) s s' C D). Qed.
+
+(* whole runs: the states of two runs over the same tokens stay related *)
+Definition run_sim (r1 r2 : run_res) : Prop :=
+  match r1, r2 with
+  | RunOk t1 _, RunOk t2 _ => same_core t1 t2 /\ dom_of t1 = dom_of t2
+  | RunPanic n1, RunPanic n2 => n1 = n2
+  | RunFuel, RunFuel => True
+  | _, _ => False
+  end.
+
+Lemma run_sim_refl r : run_sim r r.
+Proof. destruct r; simpl; [split; reflexivity | reflexivity | exact I]. Qed.
+Lemma run_sim_trans r1 r2 r3 : run_sim r1 r2 -> run_sim r2 r3 -> run_sim r1 r3.
+Proof.
+  destruct r1, r2, r3; simpl; try tauto; try congruence.
+  intros [C1 D1] [C2 D2]. unfold same_core in *. split; congruence.
+Qed.
+Lemma run_sim_sym r1 r2 : run_sim r1 r2 -> run_sim r2 r1.
+Proof. destruct r1, r2; simpl; try tauto; try congruence. intros [C D]. unfold same_core in *. split; congruence. Qed.
+
+Theorem run_tokens_same_core toks : forall s s' acc acc', same_core s s' -> dom_of s = dom_of s' ->
+  run_sim (run_tokens s toks acc) (run_tokens s' toks acc').
+Proof.
+  induction toks as [|[tk line] r IH]; intros s s' acc acc' C D; cbn [run_tokens]; [split; assumption|].
+  pose proof (log_irrelevant_holds tk line s s' C D) as H.
+  destruct (process_token tk line s) as [a t | n |], (process_token tk line s') as [a' t' | n' |]; try exact H; try contradiction.
+  destruct H as (_ & Ct & Dt). apply IH; assumption.
+Qed.
